@@ -302,6 +302,15 @@ mcase("m-kept-cursor", {P: [("        self.dbConn = dbConn\n", "        self.dbC
 mcase("m-init-only-config", {P: [("        self.dbConn = dbConn\n", "        self.dbConn = dbConn\n        self._table = \"prekeys\"\n"),
                                  (RM, RM + "\n        assert self._table")]}, "syntactic+measured (agree) | same")
 
+# objects between the stores and sqlite
+F = "liteaxolotlstore.py"
+mcase("m-connection-wrapper", {F: [("        conn.text_factory = bytes\n", "        conn.text_factory = bytes\n        conn = _Lazy(conn)\n"),
+                                   ("class LiteAxolotlStore(AxolotlStore):", "class _Lazy(object):\n    def __init__(self, c):\n        self._c = c\n\n"
+                                    "    def __getattr__(self, n):\n        return getattr(self._c, n)\n\n    def commit(self):\n        pass\n\n\n"
+                                    "class LiteAxolotlStore(AxolotlStore):")]}, "none")
+mcase("m-monkeypatched-commit", {P: [("        self.dbConn = dbConn\n", "        self.dbConn = dbConn\n        self._commit = dbConn.commit\n")],
+                                 I: [("        self.dbConn = dbConn\n", "        self.dbConn = dbConn\n        dbConn.isolation_level = None\n")]}, "none")
+
 shutil.rmtree(TMP, ignore_errors=True)
 print("%d cases, %d failed" % (NCASES, len(FAILED)))
 sys.exit(1 if FAILED else 0)
